@@ -293,7 +293,7 @@ pub struct PpResult {
 
 /// Deep indentation family: a spine of `depth` nested only-or-first children below the root,
 /// where bit i of `mask` gives level i+1 a later sibling (so its guide is `|   `, else blank).
-pub fn spine(depth: usize, mask: u32) -> Vec<usize> {
+pub fn spine(depth: usize, mask: u128) -> Vec<usize> {
     let mut parent = vec![usize::MAX];
     let mut cur = 0usize;
     for lvl in 0..depth {
@@ -338,7 +338,7 @@ pub fn run_with(max_n: usize, full_n: usize, k: usize, spine_depth: usize) -> Pp
     let mut work = work;
     let mut spines = 0usize;
     for d in 1..=spine_depth {
-        for mask in 0u32..(1 << d) {
+        for mask in 0u128..(1 << d) {
             let p = spine(d, mask);
             spines += 1;
             let n = p.len();
@@ -352,6 +352,26 @@ pub fn run_with(max_n: usize, full_n: usize, k: usize, spine_depth: usize) -> Pp
             work.push((p, a));
         }
     }
+    // deep spines (an indent stack kept inline up to 8 / 16 / 32 / 64 levels): a few sibling patterns
+    // per depth, fewer start nodes and chunkings (marked by a rendering index >= 100 in slot 0 … no:
+    // marked by membership in `sparse`)
+    let mut sparse: HashSet<(Vec<usize>, Vec<u8>)> = HashSet::new();
+    let deep_depths: Vec<usize> = if spine_depth <= 10 { vec![11, 12, 15, 16, 17, 18, 31, 32, 33, 34, 63, 64, 65, 66] } else { (11..=40).chain([63, 64, 65, 66, 100, 127]).collect() };
+    for d in deep_depths {
+        let ones: u128 = if d >= 128 { u128::MAX } else { (1u128 << d) - 1 };
+        let alt: u128 = 0x5555_5555_5555_5555_5555_5555_5555_5555 & ones;
+        for mask in [0u128, ones, alt, ones ^ alt, 1u128 << (d - 1), 1, 1u128 << (d / 2), ones ^ (1u128 << (d - 1))] {
+            let p = spine(d, mask);
+            let n = p.len();
+            spines += 1;
+            let mut a = vec![0u8; n];
+            a[d] = 1; // the deepest spine node: "a\nb"
+            a[n - 1] = 1;
+            sparse.insert((p.clone(), a.clone()));
+            work.push((p, a));
+        }
+    }
+    let sparse = &sparse;
     let all_shapes_len = all_shapes.len() + spines;
     let results: Vec<(Vec<Mismatch>, HashSet<u64>, u64)> = work
         .par_chunks(256)
@@ -361,10 +381,20 @@ pub fn run_with(max_n: usize, full_n: usize, k: usize, spine_depth: usize) -> Pp
             let mut dig = 0u64;
             for (parent, assign) in chunk {
                 let n = parent.len();
+                let is_sparse = n > 11 && sparse.contains(&(parent.clone(), assign.clone()));
                 for &chunking in &CHUNKINGS {
+                    if is_sparse && !matches!(chunking, Chunking::Whole | Chunking::Split(1)) {
+                        continue;
+                    }
                     for embedded in [false, true] {
+                        if is_sparse && embedded {
+                            continue;
+                        }
                         let (arena, ids) = build(parent, assign, chunking, embedded);
                         for start in 0..n {
+                            if is_sparse && !(start <= 1 || start == n / 2) {
+                                continue;
+                            }
                             for mode in 0..4 {
                                 let expected = reference(parent, start, assign, mode);
                                 // a print that was cut short (the sink refused more bytes) must not
